@@ -43,6 +43,8 @@ SPEC = dict(
         ("*", "__init__", "lambda_"): NUM, ("*", "update_stats", "value"): NUM, ("*", "update_stats", "alpha"): NUM,
         ("SampleInfo", "update", "value"): NUM,
         ("STEPD", "_update", "value"): BOOL,  # the error stream: 0/1 (False/True)
+        ("GaussianUnknownMean", "log_pred_prob", "idx"): INT, ("GaussianUnknownMean", "log_pred_prob", "value"): NUM,
+        ("GaussianUnknownMean", "update", "value"): NUM,
     },
     # calls on these attributes are uninterpreted functions (section variables of the generated file)
     oracles={("STEPD", "_distribution", "sf"): "norm_sf"},
@@ -74,6 +76,11 @@ SPEC = dict(
         "STEPD": [("_config", obj("STEPDConfig")), ("_num_instances", INT), ("drift", BOOL),
                   ("_additional_vars.correct_total", INT), ("_additional_vars.window_accuracy", obj("AccuracyQueue")),
                   ("_warning", BOOL), ("_min_num_instances", INT)],
+        "GaussianUnknownMean": [("mean_params", lst(NUM)), ("precision_params", lst(NUM)), ("_data_var", NUM)],
+        "BOCDConfig": [("_min_num_instances", INT), ("_model", obj("GaussianUnknownMean")), ("log_hazard", NUM), ("log_1_minus_hazard", NUM)],
+        "BOCD": [("_config", obj("BOCDConfig")), ("_num_instances", INT), ("drift", BOOL), ("_additional_vars.log_r", lst(lst(NUM))),
+                 ("_additional_vars.predicted_mean", opt(NUM)), ("_additional_vars.predicted_var", opt(NUM)),
+                 ("_additional_vars.log_message", lst(NUM)), ("_model", obj("GaussianUnknownMean"))],
         "KSWIN": [("_config", obj("KSWINConfig")), ("_num_instances", INT), ("drift", BOOL), ("_additional_vars.window", lst(NUM))],
         "ECDDWT": [("_config", obj("ECDDWTConfig")), ("_num_instances", INT), ("drift", BOOL), ("_additional_vars.p", obj("Mean")),
                    ("_additional_vars.z", obj("EWMA")), ("_additional_vars.warning", BOOL), ("_lambda_div_two_minus_lambda", NUM)],
@@ -104,6 +111,7 @@ UNITS = [
     ("RDDM", "_update"), ("RDDM", "reset"),
     ("STEPD", "_update"), ("STEPD", "reset"),
     ("KSWIN", "_update"), ("KSWIN", "reset"),
+    ("GaussianUnknownMean", "update"), ("BOCD", "_update"), ("BOCD", "reset"),
     ("HDDMA1", "_update"), ("HDDMA1", "reset"), ("HDDMA2", "_update"), ("HDDMA2", "reset"),
     ("HDDMW1", "_update"), ("HDDMW1", "reset"), ("HDDMW2", "_update"), ("HDDMW2", "reset"),
 ]
@@ -119,6 +127,7 @@ EQ = {
     "C03": ["EqStats.v", "EqSPC.v", "EqRDDM.v"],
     "C04": ["EqStats.v", "EqHDDM.v", "EqHDDMW.v"],
     "C06": ["EqStats.v", "EqSTEPD.v", "EqKSWIN.v"],
+    "C08": ["EqStats.v", "EqBOCD.v"],
 }
 
 
